@@ -166,7 +166,7 @@ func cmdReplay(args []string) int {
 		fmt.Fprintln(os.Stderr, err)
 		return 2
 	}
-	workDir := filepath.Join(verifDir, ".work", "replay-"+rf.Property)
+	workDir := filepath.Join(verifDir, ".work", fmt.Sprintf("replay-%s-%d", rf.Property, os.Getpid()))
 	os.RemoveAll(workDir)
 	os.MkdirAll(workDir, 0o755)
 	defer os.RemoveAll(workDir)
